@@ -382,8 +382,12 @@ func checkC04(c *Ctx) {
 	c.rule("C04.c", "continuation requests only for an accepted synchronising literal, IDLE and AUTHENTICATE after their gates", 3)
 	c.rule("C04.d", "every response encoder is ended exactly once; nothing else reaches the connection's writer", 25)
 	c.rule("C04.e", "the command line (including a trailing non-synchronising literal and over-long continuation lines) is discarded before the next command is read", 5)
+	c.rule("C04.f", "an unchecked decoder call never leaves a loop-carried out-parameter stale", 1)
+	c.rule("C04.g", "the decoder's end-of-line flag is cleared only where input is consumed", 2)
 	c.rule("C04.L1", "lemma L1: a Decoder.Expect* method that returns false has recorded a decoder error", 20)
 	ruleL1(c, "C04.L1")
+	ruleStaleOutParam(c, "C04.f")
+	ruleEOLFlag(c, "C04.g")
 	c.assume("an I/O error returned by a tagged writer means the connection is dead; a second write attempt is not counted as a second completion")
 
 	readCommand := p.Func("imapserver", "Conn", "readCommand")
